@@ -47,6 +47,8 @@ struct Runner
   std::vector<std::unique_ptr<sbx>> sb;
   std::vector<std::unique_ptr<CB>> owner;
   std::vector<tainted<int*, S>> lastp;
+  std::vector<tainted<int**, S>> lastcell; // a pointer cell in sandbox memory (for the tainted_volatile form of free)
+  uint64_t free_forms = 0;
   // model
   std::vector<St> st;
   std::vector<int> lib;           // library of the current incarnation
@@ -63,6 +65,7 @@ struct Runner
       sb.push_back(std::make_unique<sbx>());
       owner.push_back(std::make_unique<CB>());
       lastp.push_back(nullptr);
+      lastcell.push_back(nullptr);
     }
     st.assign(n, NC); lib.assign(n, 0); registered.assign(n, false); owner_current.assign(n, false); rep.assign(n, 0); base.assign(n, 0);
   }
@@ -154,9 +157,24 @@ struct Runner
         break;
       }
       case O_FREE: {
+        // the three forms of free_in_sandbox: tainted pointer, reference to a pointer cell in sandbox memory, opaque pointer.
+        // Outside the window the cell form must not even read the cell (the memory may be gone: the model unmaps it)
+        int form = static_cast<int>(free_forms++ % 3);
+        if (form == 1 && st[o] == CR) {
+          tainted<int**, S> cell = nullptr;
+          bool abm = mon::aborts([&] { cell = s.malloc_in_sandbox<int*>(); });
+          if (abm || !cell) form = 0;
+          else { *cell = lastp[o]; lastcell[o] = cell; }
+        }
+        if (form == 1 && !lastcell[o]) form = 0;
         vsbx_ev.frees = 0;
-        bool ab = mon::aborts([&] { s.free_in_sandbox(lastp[o]); });
-        if (ab) { fail("free", "abort", mon::fmt("state %d", st[o])); return false; }
+        bool ab = mon::aborts([&] {
+          if (form == 0) s.free_in_sandbox(lastp[o]);
+          else if (form == 1) s.free_in_sandbox(*lastcell[o]);
+          else s.free_in_sandbox(lastp[o].to_opaque());
+        });
+        mon::hit(form == 0 ? "free-form/tainted" : (form == 1 ? "free-form/tainted_volatile-cell" : "free-form/tainted_opaque"));
+        if (ab) { fail("free", "abort", mon::fmt("state %d, form %d", st[o], form)); return false; }
         if (st[o] != CR && vsbx_ev.frees != 0) { fail("free", "free-outside-lifetime-window-reached-backend", ""); return false; }
         if (st[o] == CR && vsbx_ev.frees != 1) { fail("free", "free-inside-lifetime-window-not-performed", ""); return false; }
         if (st[o] == CR) lastp[o] = nullptr;
